@@ -141,9 +141,7 @@ theorem C16_trades_only_on_open_bars (cx : DCtx) (c : TokenCfg) (s : DState) (r 
     step cx c s (.sell r) = (.error (.demeter "market-closed"), s) := by
   constructor <;> simp [step, buy, sell, h]
 
-/-- … and the flag is what the bar's data says: `set_market_status` copies it from "timestamp in data" -/
-theorem C16_flag_follows_data (s : DState) (b : Bar) : (setStatus s b).flagOpen = b.flagOpen ∧ (setStatus s b).now = b.now := ⟨rfl, rfl⟩
-
+-- where the flag comes from (`timestamp in _data.index`) is modelled in Demeter/Deribit/Frame.lean: `C16_flag_follows_data`, Proofs/C16/Frame.lean
 
 /-! ### non-vacuity: a call and a put, both due at minute 120, one in the money -/
 
